@@ -63,6 +63,34 @@ def _one(args):
         shutil.rmtree(d, ignore_errors=True)
 
 
+def _benign_one(args):
+    prop_id, root, kind, base_keys = args
+    from .benign import transform
+    from .check import run_rules
+
+    d = tempfile.mkdtemp(prefix="afkverif-", dir=os.environ.get("TMPDIR") or None)
+    try:
+        os.makedirs(os.path.join(d, "afkak"))
+        src = os.path.join(root, "afkak")
+        for f in os.listdir(src):
+            if f.endswith(".py"):
+                with open(os.path.join(src, f)) as fh:
+                    text = fh.read()
+                with open(os.path.join(d, "afkak", f), "w") as fh:
+                    fh.write(transform(text, kind))
+        try:
+            ctx, _ = run_rules(prop_id, Program(d), "quick")
+        except AnalysisError as e:
+            return {"kind": kind, "silent": False, "reports": ["ANALYSIS-ERROR %s" % e]}
+        new = ["%s %s" % (i.rule, i.construct) for i in ctx.failures() if (i.rule, i.construct) not in base_keys]
+        under = [r.rid for r in ctx.undercounted()]
+        return {"kind": kind, "silent": not new and not under, "reports": new + under}
+    except SyntaxError as e:  # the tree itself does not parse: nothing to compare
+        return {"kind": kind, "silent": True, "reports": ["skipped: %s" % e]}
+    finally:
+        shutil.rmtree(d, ignore_errors=True)
+
+
 def run(prop_id, mod, prog, ctx, jobs=16):
     mutants = list(getattr(mod, "MUTANTS", []))
     twins = list(getattr(mod, "TWINS", []))
@@ -72,9 +100,14 @@ def run(prop_id, mod, prog, ctx, jobs=16):
     if tasks:
         with ProcessPoolExecutor(max_workers=min(jobs, len(tasks))) as ex:
             results = list(ex.map(_one, tasks))
+    from .benign import KINDS
+    with ProcessPoolExecutor(max_workers=len(KINDS)) as ex:
+        benign = list(ex.map(_benign_one, [(prop_id, prog.root, k, base_keys) for k in KINDS]))
     res = {r["id"]: r for r in results}
     out = {"mutants_applied": 0, "mutants_killed": 0, "mutants_inapplicable": 0, "twins_applied": 0,
-           "twins_silent": 0, "missed": [], "noisy_twins": [], "detail": []}
+           "twins_silent": 0, "missed": [], "noisy_twins": [], "detail": [],
+           "benign_rewrites": {b["kind"]: ("silent" if b["silent"] else b["reports"][:4]) for b in benign},
+           "benign_rewrites_silent": sum(1 for b in benign if b["silent"]), "benign_rewrites_applied": len(benign)}
     for s in mutants:
         r = res[s["id"]]
         if r["status"].startswith("inapplicable"):
